@@ -47,7 +47,20 @@ if _VF_SYMBOLIC:
     if allow_interpretation: return None
     return _orig_consider_shortcircuit(fn, sig, bound, subconditions, allow_interpretation)
   _cc.consider_shortcircuit = _no_shortcircuit
+  from crosshair.tracers import NoTracing as _untraced
+  from crosshair.util import NotDeterministic as _VfNotDet
+  _vf_exc0 = _vf_exc
+  def _vf_exc(name, e):
+    if isinstance(e, _VfNotDet): raise e      # CrossHair's own signal, not an outcome of the code under test
+    return _vf_exc0(name, e)
+else:
+  import contextlib
+  _untraced = contextlib.nullcontext
 T = transform.TreeTransform
+# Tracing discipline: the fluent builder calls (T.new()...apply/filter/assign/batch/agg/chain/named_transforms) see no
+# symbolic value - lambdas only capture them - so they run natively inside `with _untraced():` (the real code, executed by
+# the plain interpreter; an accidental touch of a symbolic value there raises CrossHairInternal = inconclusive). The data
+# source, make(), iterate(), iteration, merge_states and get_result run under CrossHair's opcode tracing.
 
 class Seq:
   """Abstract random-access source: element i is f(i); n may be symbolic."""
@@ -184,7 +197,7 @@ def splits_of(nops, ways):
   return [c for c in itertools.combinations_with_replacement(range(nops + 1), ways - 1)]
 
 
-def stage_code(fam, frags, agg, cuts, src, names, threads=''):
+def stage_code(frags, agg, cuts, names, threads='', src='ds'):
   """Code building a chain of len(cuts)+1 transforms; names[i] = name of stage i ('' everywhere = library fuses)."""
   bounds = [0] + list(cuts) + [len(frags)]
   lines = []
@@ -193,47 +206,64 @@ def stage_code(fam, frags, agg, cuts, src, names, threads=''):
     head = f'T.new(name={names[i]!r}{threads})'
     if i == 0: head += f'.data_source({src})'
     if i == len(bounds) - 2: body += agg
-    lines.append(f'st{i} = {head}{body}')
-  lines.append('ch = st0' + ''.join(f'.chain(st{i})' for i in range(1, len(bounds) - 1)))
+    lines.append(f'  st{i} = {head}{body}')
+  lines.append('  ch = st0' + ''.join(f'.chain(st{i})' for i in range(1, len(bounds) - 1)))
   return '\n'.join(lines)
 
 
-def gen(nmax, nmax_filter, seqs, seqs3way, shard_seqs, ks, readahead_seqs, nmax_ra, shardchain_seqs, thread_seqs):
+def cut_groups(ops):
+  """2-way cut positions 0..len(ops), grouped so that one obligation stays below ~100 s CPU."""
+  cuts = [(c,) for c in range(len(ops) + 1)]
+  if len(ops) <= 2 and not any(o in 'GH' for o in ops):
+    return [cuts]
+  return [cuts[i:i + 2] for i in range(0, len(cuts), 2)]
+
+
+def gen(nmax, nmax_g, nmax_filter, seqs, seqs3way, shard_plan, readahead_plan, nmax_ra, shardchain_plan, thread_seqs, wits=('chain', 'shard')):
   F = xh.fn
   s = [PRELUDE]
   A = s.append
 
-  def nb(ops):   # every filter doubles / multiplies the number of paths: smaller length bound
-    return nmax_filter if sum(o in 'FGPH' for o in ops) >= 2 else nmax
+  def nb(ops):   # every filter multiplies the number of paths (parity: x2, threshold: x(n+1)): smaller length bound
+    if sum(o in 'FGPH' for o in ops) >= 2: return nmax_filter
+    return nmax_g if any(o in 'GH' for o in ops) else nmax
+
+  def chain_ob(name, fam, ops, plan, with_fuse):
+    frags, params, agg, batched, _ = build(fam, ops)
+    pa, pre = sig(params, nb(ops))
+    body = [f"ds = {'_isrc' if fam == 'i' else '_dsrc'}(n, off)",
+            'with _untraced():',
+            f"  fused = T.new().data_source(ds){''.join(frags)}{agg}",
+            'want = _run(fused)',
+            'ok = want[1] is not None']
+    for cuts in plan:
+      names = [chr(ord('a') + i) for i in range(len(cuts) + 1)]
+      body += ['with _untraced():', stage_code(frags, agg, cuts, names),
+               'got = _run(ch)',
+               's_out, s_res, s_names = _staged(ch)',
+               f'ok = ok and got[0] == want[0] and got[1] == want[1] and s_out == want[0] and s_res == want[1] and s_names == {names!r}']
+    if with_fuse:      # same name: TreeTransform.chain fuses the stages through _chain_and_fuse
+      cut = (len(ops) + 1) // 2
+      body += ['with _untraced():', stage_code(frags, agg, (cut,), ['', '']),
+               '  nstages = len(ch.named_transforms())',
+               'got = _run(ch)',
+               'ok = ok and got[0] == want[0] and got[1] == want[1] and nstages == 1']
+    body.append('return ok')
+    A(F(name, pa, pre, '\n'.join(body)))
 
   # ---- (a) fused == named chain == same-name chain == stage by stage -----------------------------
   for fam, ops in seqs:
-    frags, params, agg, batched, _ = build(fam, ops)
-    src = '_isrc(n, off)' if fam == 'i' else '_dsrc(n, off)'
-    pa, pre = sig(params, nb(ops))
-    fused = f"want = _run(T.new().data_source({src}){''.join(frags)}{agg})"
-    plan = [(2, c) for c in splits_of(len(ops), 2)]
+    for gi, group in enumerate(cut_groups(ops)):
+      ct = ''.join(str(c[0]) for c in group)
+      chain_ob(f'ob_chain_{tag(fam, ops)}_cuts{ct}', fam, ops, group, with_fuse=gi == 0)
     if (fam, ops) in seqs3way:
-      plan += [(3, c) for c in splits_of(len(ops), 3) if c[0] != c[1]]
-    for ways, cuts in plan:
-      names = [chr(ord('a') + i) for i in range(ways)]
-      ct = ''.join(str(c) for c in cuts)
-      A(F(f'ob_chain_{tag(fam, ops)}_cut{ct}', pa, pre, f"""
-{fused}
-{stage_code(fam, frags, agg, cuts, src, names)}
-got = _run(ch)
-s_out, s_res, s_names = _staged(ch)
-return (got[0] == want[0] and got[1] == want[1] and want[1] is not None
-        and s_out == want[0] and s_res == want[1] and s_names == {names!r})"""))
-    # same name: TreeTransform.chain fuses through _chain_and_fuse
-    cut = (len(ops) + 1) // 2
-    A(F(f'ob_fusechain_{tag(fam, ops)}_cut{cut}', pa, pre, f"""
-{fused}
-{stage_code(fam, frags, agg, (cut,), src, ['', ''])}
-got = _run(ch)
-return got[0] == want[0] and got[1] == want[1] and len(ch.named_transforms()) == 1"""))
-  # witnesses: a chain whose filter really drops rows, emits >= 2 batches and aggregates them
-  A(F('wit_chain', 'n: int, off: int, c0: int, r1: int', f'0 <= n <= 4 and -2 <= off <= 2 and -2 <= c0 <= 2 and 0 <= r1 <= 1', """
+      three = [c for c in splits_of(len(ops), 3) if c[0] != c[1]]
+      for gi in range(0, len(three), 2):
+        group = three[gi:gi + 2]
+        ct = '_'.join(''.join(str(x) for x in c) for c in group)
+        chain_ob(f'ob_chain3_{tag(fam, ops)}_cuts{ct}', fam, ops, group, with_fuse=False)
+  # witness: a chain whose filter really drops rows, emits >= 2 batches and aggregates them
+  if 'chain' in wits: A(F('wit_chain', 'n: int, off: int, c0: int, r1: int', f'0 <= n <= 4 and -2 <= off <= 2 and -2 <= c0 <= 2 and 0 <= r1 <= 1', """
 st0 = T.new(name='a').data_source(_isrc(n, off)).apply(lambda x: _add(x, c0))
 st1 = T.new(name='b').filter(lambda x: _par(x, r1)).agg(SumAgg(), output_keys='s')
 out, res, _ = _run(st0.chain(st1))
@@ -243,59 +273,62 @@ return not (len(out) >= 2 and len(out) < n and res['s'][1] == len(out) and c0 !=
   def shard_ob(name, fam, ops, k, readahead, nmx, chain_cut=None):
     frags, params, agg, batched, rowwise = build(fam, ops)
     assert rowwise, f'{ops}: an operator after a batch depends on batch composition; shards legitimately differ'
-    src = ('_isrc' if fam == 'i' else '_dsrc') + f'(n, off, {readahead})'
     pa, pre = sig(params, nmx)
-    mk = f"mk = lambda: T.new().data_source({src}){''.join(frags)}{agg}"
     view = '_rows' if batched else ''
-    body = [mk, 'want = _run(mk())', 'outs, states = [], []']
+    body = [f"ds = {'_isrc' if fam == 'i' else '_dsrc'}(n, off, {readahead})",
+            'with _untraced():',
+            f"  t = T.new().data_source(ds){''.join(frags)}{agg}",
+            'want = _run(t)', 'outs, states = [], []']
     for i in range(k):
       if chain_cut is None:
-        body.append(f'o, _, st = _run(mk(), shard=io.ShardConfig({i}, {k})); outs += o; states.append(st)')
+        body.append(f'o, _, st = _run(t, shard=io.ShardConfig({i}, {k})); outs += o; states.append(st)')
       else:
-        body.append(stage_code(fam, frags, agg, (chain_cut,), f'{src}.shard({i}, {k})', ['a', 'b']))
-        body.append('o, _, st = _run(ch); outs += o; states.append(st)')
+        body += [f'dsi = ds.shard({i}, {k})', 'with _untraced():', stage_code(frags, agg, (chain_cut,), ['a', 'b'], src='dsi'),
+                 'o, _, st = _run(ch); outs += o; states.append(st)']
     body.append(f"""
-ragg = mk().make(mode=transform.RunnerMode.AGGREGATE)        # what the orchestration merges with
+ragg = t.make(mode=transform.RunnerMode.AGGREGATE)        # what the orchestration merges with
 m1 = ragg.merge_states(_cps(states), strict_states_cnt={k})
-rr = mk().make().named_aggs['']                              # the TransformRunner itself
+rr = t.make().named_aggs['']                              # the TransformRunner itself
 m2 = rr.merge_states(iter(_cps(states)), strict_states_cnt={k})
-m3 = mk().make().merge_states(_cps(states))
+m3 = t.make().merge_states(_cps(states))
 w = _res(want[1])
 return ({view}(outs) == {view}(want[0]) and w is not None and _res(ragg.get_result(m1)) == w
-        and _res(rr.get_result(m2)) == w and _res(mk().make().get_result(m3)) == w)""")
+        and _res(rr.get_result(m2)) == w and _res(t.make().get_result(m3)) == w)""")
     A(F(name, pa, pre, '\n'.join(body)))
 
-  for fam, ops in shard_seqs:
+  for fam, ops, ks in shard_plan:
     for k in ks:
       shard_ob(f'ob_shard_{tag(fam, ops)}_k{k}', fam, ops, k, 0, nb(ops))
-  for fam, ops in readahead_seqs:      # read-ahead 2 < shard length: _RangeIterator reads a shard in several chunks
+  for fam, ops, ks in readahead_plan:  # read-ahead 2 < shard length: _RangeIterator reads a shard in several chunks
     for k in ks:
-      if k > 1:
-        shard_ob(f'ob_shard_readahead2_{tag(fam, ops)}_k{k}', fam, ops, k, 2, nmax_ra)
-  for fam, ops in shardchain_seqs:     # sharded source feeding a chain of named stages
+      shard_ob(f'ob_shard_readahead2_{tag(fam, ops)}_k{k}', fam, ops, k, 2, nmax_ra)
+  for fam, ops, ks in shardchain_plan:  # sharded source feeding a chain of named stages
     for k in ks:
-      if k > 1:
-        shard_ob(f'ob_shardchain_{tag(fam, ops)}_k{k}', fam, ops, k, 0, nb(ops), chain_cut=1)
-  A(F('wit_shard_k3', 'n: int, off: int, r0: int', f'0 <= n <= {max(nmax, 6)} and -2 <= off <= 2 and 0 <= r0 <= 1', """
-mk = lambda: T.new().data_source(_isrc(n, off, 2)).filter(lambda x: _par(x, r0)).agg(SumAgg(), output_keys='s')
-o0, _, s0 = _run(mk(), shard=io.ShardConfig(0, 3))
-o1, _, s1 = _run(mk(), shard=io.ShardConfig(1, 3))
-o2, _, s2 = _run(mk(), shard=io.ShardConfig(2, 3))
-m = mk().make().merge_states([s0, s1, s2], strict_states_cnt=3)
-return not (len(o0) >= 1 and len(o1) >= 1 and len(o2) >= 1 and n == 6 and mk().make().get_result(m)['s'][1] == 3)"""))
+      shard_ob(f'ob_shardchain_{tag(fam, ops)}_k{k}', fam, ops, k, 0, nb(ops), chain_cut=1)
+  if 'shard' in wits: A(F('wit_shard_k3', 'n: int, off: int, r0: int', f'0 <= n <= {max(nmax, 6)} and -2 <= off <= 2 and 0 <= r0 <= 1', """
+t = T.new().data_source(_isrc(n, off, 2)).filter(lambda x: _par(x, r0)).agg(SumAgg(), output_keys='s')
+o0, _, s0 = _run(t, shard=io.ShardConfig(0, 3))
+o1, _, s1 = _run(t, shard=io.ShardConfig(1, 3))
+o2, _, s2 = _run(t, shard=io.ShardConfig(2, 3))
+m = t.make().merge_states([s0, s1, s2], strict_states_cnt=3)
+return not (len(o0) >= 1 and len(o1) >= 1 and len(o2) >= 1 and n == 6 and t.make().get_result(m)['s'][1] == 3)"""))
 
   # ---- (c) num_threads=0 explicit == default ---------------------------------------------------------
   for fam, ops in thread_seqs:
     frags, params, agg, batched, _ = build(fam, ops)
-    src = '_isrc(n, off)' if fam == 'i' else '_dsrc(n, off)'
     pa, pre = sig(params, nb(ops))
     cut = len(ops) // 2
     A(F(f'ob_threads0_{tag(fam, ops)}', pa, pre, f"""
-want = _run(T.new().data_source({src}){''.join(frags)}{agg})
-got = _run(T.new(num_threads=0).data_source({src}){''.join(frags)}{agg})
-{stage_code(fam, frags, agg, (cut,), src, ['a', 'b'], threads=', num_threads=0')}
+ds = {'_isrc' if fam == 'i' else '_dsrc'}(n, off)
+with _untraced():
+  t_default = T.new().data_source(ds){''.join(frags)}{agg}
+  t_zero = T.new(num_threads=0).data_source(ds){''.join(frags)}{agg}
+{stage_code(frags, agg, (cut,), ['a', 'b'], threads=', num_threads=0')}
+want = _run(t_default)
+got = _run(t_zero)
 got2 = _run(ch)
-return got[0] == want[0] and got[1] == want[1] and got2[0] == want[0] and got2[1] == want[1] and transform._DEFAULT_NUM_THREADS == 0"""))
+return (got[0] == want[0] and got[1] == want[1] and got2[0] == want[0] and got2[1] == want[1] and want[1] is not None
+        and transform._DEFAULT_NUM_THREADS == 0)"""))
   return '\n'.join(s)
 
 
@@ -314,20 +347,25 @@ def params_for(tier):
   I = lambda *ops: ('i', tuple(ops))
   D = lambda *ops: ('d', tuple(ops))
   if tier == 'quick':
-    seqs = [I('A'), I('G'), I('B2'), I('A', 'F'), I('F', 'A'), I('G', 'B2'), I('A', 'F', 'B2'), I('B2', 'A', 'G'), I('G', 'A', 'F'),
-            D('S'), D('S', 'P'), D('P', 'S', 'H')]
-    return dict(nmax=6, nmax_filter=4, seqs=seqs, seqs3way=[I('G', 'A', 'F')],
-                shard_seqs=[I('A'), I('A', 'F'), I('G', 'B2', 'A'), D('S', 'P')], ks=[1, 2, 3],
-                readahead_seqs=[I('A')], nmax_ra=7, shardchain_seqs=[I('A', 'F')], thread_seqs=[I('A', 'F'), D('S')])
-  ints = _seqs(['A', 'F', 'G', 'B2'], 2, _one_batch)
-  ints += [ops for ops in itertools.permutations(['A', 'F', 'G', 'B2'], 3)]
-  ints += [('A', 'A', 'F'), ('F', 'A', 'F'), ('G', 'G', 'A'), ('B3', 'A', 'A'), ('A', 'B1', 'G'), ('A', 'G', 'B3')]
-  dicts = _seqs(['S', 'P', 'H'], 2) + [('S', 'P', 'S'), ('P', 'S', 'H'), ('S', 'S', 'H'), ('H', 'P', 'S')]
+    seqs = [I('A'), I('B2'), I('A', 'F'), I('G', 'B2'), I('B2', 'A', 'G'), I('G', 'A', 'F'), D('S', 'P'), D('P', 'S', 'H')]
+    return dict(nmax=6, nmax_g=5, nmax_filter=4, seqs=seqs, seqs3way=[I('A', 'F')],
+                shard_plan=[(*I('A'), [1, 2, 3]), (*I('A', 'F'), [2, 3]), (*I('G', 'B2', 'A'), [2]), (*D('S', 'P'), [3])],
+                readahead_plan=[(*I('A'), [2, 3])], nmax_ra=7, shardchain_plan=[(*I('A', 'F'), [2])],
+                thread_seqs=[I('A', 'F')])
+  ints = _seqs(['A', 'F', 'G', 'B2'], 2, _one_batch)      # every sequence of <= 2 operators with at most one batch
+  ints += [('A', 'F', 'B2'), ('F', 'G', 'A'), ('G', 'A', 'F'), ('B2', 'A', 'G'), ('G', 'B2', 'A'), ('A', 'B2', 'F'), ('A', 'A', 'F'),
+           ('F', 'A', 'F'), ('B3', 'A', 'A'), ('A', 'B1', 'G'), ('F', 'B2', 'G'), ('A', 'G', 'B3')]
+  dicts = [('S',), ('P',), ('H',), ('S', 'P'), ('P', 'S'), ('S', 'H'), ('H', 'S'), ('S', 'S'), ('P', 'H'),
+           ('S', 'P', 'S'), ('P', 'S', 'H'), ('S', 'S', 'H'), ('H', 'P', 'S')]
   seqs = [('i', o) for o in ints] + [('d', o) for o in dicts]
-  rowwise = [x for x in seqs if build(*x)[4]]
-  return dict(nmax=7, nmax_filter=5, seqs=seqs, seqs3way=[x for x in seqs if len(x[1]) == 3],
-              shard_seqs=rowwise, ks=[1, 2, 3, 4], readahead_seqs=[I('A'), I('A', 'F'), D('S')], nmax_ra=9,
-              shardchain_seqs=[I('A', 'F'), I('G', 'B2'), D('S', 'P')], thread_seqs=[I('A', 'F'), I('B2', 'A'), D('S')])
+  shard_plan = [(*I('A'), [1, 2, 3, 4]), (*I('F'), [2, 3]), (*I('G'), [2, 4]), (*I('B2'), [2, 3]), (*I('A', 'F'), [2, 3, 4]),
+                (*I('G', 'A'), [3]), (*I('A', 'B2'), [2, 4]), (*I('G', 'B2', 'A'), [2, 3]), (*I('F', 'G', 'A'), [3]),
+                (*I('A', 'A', 'F'), [4]), (*D('S'), [2, 3]), (*D('S', 'P'), [2, 3, 4]), (*D('P', 'S', 'H'), [3]), (*D('S', 'S', 'H'), [2])]
+  return dict(nmax=8, nmax_g=6, nmax_filter=5, seqs=seqs,
+              seqs3way=[I('G', 'A', 'F'), I('A', 'F', 'B2'), I('B2', 'A', 'G'), I('F', 'A', 'F'), D('P', 'S', 'H'), D('S', 'P', 'S')],
+              shard_plan=shard_plan, readahead_plan=[(*I('A'), [2, 3, 4]), (*I('A', 'F'), [2, 3]), (*D('S'), [3])], nmax_ra=9,
+              shardchain_plan=[(*I('A', 'F'), [2, 3]), (*I('G', 'B2'), [2]), (*D('S', 'P'), [3])],
+              thread_seqs=[I('A', 'F'), I('B2', 'A'), D('S')])
 
 
 def classify(name, call):
@@ -364,15 +402,19 @@ def run(tier):
               iter_utils.MergedSequences.slice, iter_utils.MultiplexIterator.__init__)
   p = params_for(tier)
   timeout = 150 if tier == 'quick' else 1200
-  rep.bounds(nmax=p['nmax'], nmax_with_two_filters=p['nmax_filter'], nmax_readahead2=p['nmax_ra'], shard_counts=p['ks'],
+  rep.bounds(nmax=p['nmax'], nmax_with_threshold_filter=p['nmax_g'], nmax_with_two_filters=p['nmax_filter'], nmax_readahead2=p['nmax_ra'],
              operator_sequences=[tag(*x) for x in p['seqs']], three_way_splits=[tag(*x) for x in p['seqs3way']],
-             sharded_sequences=[tag(*x) for x in p['shard_seqs']], constants=C_RANGE, thresholds=T_RANGE, data_offset=OFF_RANGE,
+             sharded_sequences={tag(f, o): ks for f, o, ks in p['shard_plan']},
+             sharded_readahead2={tag(f, o): ks for f, o, ks in p['readahead_plan']},
+             sharded_chains={tag(f, o): ks for f, o, ks in p['shardchain_plan']}, constants=C_RANGE, thresholds=T_RANGE, data_offset=OFF_RANGE,
              per_condition_timeout_s=timeout,
              note='A apply(x+c) F filter(x%2==r) G filter(x>=t) B<b> batch(b) on int rows; d-prefixed: S assign(next=prev+c) '
                   'P filter(a%2==r) H filter(last>=t) on dict rows; every 2-way cut position 0..len(ops) is a separate obligation')
   rep.outside(*OUTSIDE)
   rep.assume('types.is_recoverable re-expressed with try/getattr instead of hasattr during symbolic runs (CrossHair limitation; same semantics)',
              'absl logging and time.time in transform.py/iter_utils.py/io.py replaced by no-ops during symbolic runs (stubs; they only feed log messages)',
+             'fluent builder calls run with CrossHair opcode tracing switched off (crosshair.tracers.NoTracing): they touch no symbolic value, '
+             'the real builder code is executed by the plain interpreter; everything from the data source and make() on is traced',
              'shard states are copied (per-key list copy) before each of the three merges: the in-place aggregate folds into the first state',
              "CrossHair's optional probabilistic short-circuiting of contract-bearing helper calls (its own hash()/repr() models) is switched "
              'off during symbolic runs: bodies are always interpreted (exact semantics; avoids symbolic hashes reaching C-level dict hashing)',
